@@ -1054,6 +1054,13 @@ func (fv *FuncVC) evalCall(env *SpecEnv, x *SCall) Val {
 		case "isnil":
 			v := fv.evalSpec(env, x.Args[0])
 			return boolVal(Eq(v.C[0], "0"))
+		case "nilptr":
+			// nilptr(x): the interface value x holds no object - it is nil or a typed nil pointer (payload 0)
+			v := fv.evalSpec(env, x.Args[0])
+			if _, ok := v.T.Underlying().(*types.Interface); !ok || len(v.C) != 2 {
+				engineErr("nilptr(..) takes an interface value")
+			}
+			return boolVal(Eq(v.C[1], "0"))
 		case "local":
 			// local(x): the current value of the variable x at the program point of a `checks` clause or invariant, also when x
 			// is a parameter (a bare parameter name in a post-condition denotes its entry value)
